@@ -23,10 +23,21 @@ import (
 
 type OutsideValidityIntervalUtxoError struct {
 	ValidityIntervalStart uint64
-	Slot                  uint64
+	// InvalidHereafter is the upper bound (TTL) that was violated; nil when the
+	// slot is before ValidityIntervalStart
+	InvalidHereafter *uint64
+	Slot             uint64
 }
 
 func (e OutsideValidityIntervalUtxoError) Error() string {
+	if e.InvalidHereafter != nil {
+		return fmt.Sprintf(
+			"outside validity interval: start %d, invalid hereafter %d, slot %d",
+			e.ValidityIntervalStart,
+			*e.InvalidHereafter,
+			e.Slot,
+		)
+	}
 	return fmt.Sprintf(
 		"outside validity interval: start %d, slot %d",
 		e.ValidityIntervalStart,
